@@ -529,12 +529,19 @@ def ref_obj_dict(R, A, d):
     R.obj = {_rid(A, k): float(v) for k, v in d.items() if v != 0}
 
 
+def _sum_terms(A, d):
+    out = {}
+    for k, v in d.items():                      # two handles may name one reaction after a rename: the terms add up
+        out[_rid(A, k)] = out.get(_rid(A, k), 0.0) + float(v)
+    return {k: v for k, v in out.items() if v != 0}
+
+
 def ref_obj_expr(R, A, d):
-    R.obj = {_rid(A, k): float(v) for k, v in d.items() if v != 0}      # the direction is not mentioned: unchanged
+    R.obj = _sum_terms(A, d)                    # the direction is not mentioned: unchanged
 
 
 def ref_obj_object(R, A, d, direction):
-    R.obj = {_rid(A, k): float(v) for k, v in d.items() if v != 0}
+    R.obj = _sum_terms(A, d)
     R.direction = direction
 
 
@@ -873,8 +880,10 @@ def real_add_boundary(S, h, typ, rid, lb, ub):
 def _met_keys(S, items, keytype):
     import cobra
     d = {}
-    for h, c in items:
-        i = S.rid(h)
+    resolved = {}
+    for h, c in items:                  # two handles may name one metabolite after a rename: one key, the last value
+        resolved[S.rid(h)] = c
+    for i, c in resolved.items():
         if keytype == "id":
             d[i] = float(c)
         elif keytype == "obj":
